@@ -62,7 +62,7 @@ def eval_case(arg):
         proj = histrun.Project(root)
         st = copy.deepcopy(st0)
         project.apply_edit(st, ops[0])
-        proj.sync(project.render(st))
+        proj.sync(project.render(st), project.unlisted_paths(st))
         targets = proj.targets()
         mypyrun.seed_for(histrun.COMMON + flags, "c07").copy_to(cseq)
         mypyrun.seed_for(histrun.COMMON + flags, "c07").copy_to(cpar)
@@ -107,7 +107,7 @@ def eval_case(arg):
                 res["problems"].append(("cold-parallel",) + d)
         # edit, then warm runs on the cache the parallel build left, and on copies of it
         project.apply_edit(st, ops[1])
-        proj.sync(project.render(st))
+        proj.sync(project.render(st), project.unlisted_paths(st))
         targets = proj.targets()
         cold_dir = mypyrun.scratch("c07cold")
         cpar2 = mypyrun.scratch("c07par2")
